@@ -26,7 +26,7 @@ def handle (op : String) (args : List String) : Option (String × String × Stri
     let b ← fromHex h
     pure ("-", boolStr (Spec.Json.validStd b), "")
   -- json.stream <events> <final>: events = comma-separated d:<hex> (data) | e:<hex> (data delivered with the final error)
-  | "json.stream", [evs, fin] => do
+  | "json.stream", evs :: fin :: _ => do
     let final := if fin == "eof" then Model.Json.Stream.RErr.eof else .other
     let evl ← (evs.splitOn ",").filter (· ≠ "") |>.mapM fun e =>
       match e.splitOn ":" with
